@@ -400,6 +400,24 @@ def build_models(interp):
         raise Unsupported("np.arange with symbolic arguments %r" % (a,))
 
     reg(np.arange, m_arange)
+
+    def m_searchsorted(a, v, side="left", sorter=None):
+        """searchsorted on a concrete, uniformly spaced, increasing grid: the index k with a[k-1] < v <= a[k] (side=left)
+        is ceiling((v - a0)/step) clipped to [0, n]; other grids are not modelled"""
+        if sorter is not None or not isinstance(a, np.ndarray) or a.ndim != 1 or a.size < 2:
+            raise Unsupported("searchsorted")
+        d = np.diff(a)
+        if not (np.all(d > 0) and np.allclose(d, d[0], rtol=1e-9)):
+            raise Unsupported("searchsorted on a non-uniform grid")
+        a0, step, nn = sym.rat(float(a[0])), sym.rat(float((a[-1] - a[0]))) / (a.size - 1), a.size
+
+        def idx(e):
+            k = sp.ceiling((e - a0) / step) if side == "left" else sp.floor((e - a0) / step) + 1
+            return sp.Max(0, sp.Min(nn, k))
+
+        return _ew(idx)(v)
+
+    reg(np.searchsorted, m_searchsorted)
     reg(np.where, m_where)
     reg(np.zeros_like, _like(0))
     reg(np.ones_like, _like(1))
@@ -573,6 +591,17 @@ def build_models(interp):
             if isinstance(idx, A):
                 return A(idx.axes, e, idx.dom)
             return S(e)
+        if isinstance(idx, tuple) and arr.ndim == len(idx) and all(isinstance(q, (S, A, int, np.integer)) for q in idx):
+            # table entry at symbolic indices: an uninterpreted function of the indices (values: data obligations elsewhere)
+            name = interp.named_tables.get(id(arr), ("table%d" % (id(arr) % 9973), arr))[0]
+            F = sp.Function(name)
+            es = [q.e if isinstance(q, (S, A)) else sp.Integer(int(q)) for q in idx]
+            for q, dim in zip(es, arr.shape):
+                Hooks.raises(sp.Or(sp.Lt(q, -dim), sp.Ge(q, dim)), "IndexError", "index into a table of size %d" % dim)
+            arrs = [q for q in idx if isinstance(q, A)]
+            if arrs:
+                return A(arrs[0].axes, F(*es), arrs[0].dom)
+            return S(F(*es))
         raise Unsupported("concrete ndarray indexed by symbolic %r" % type(idx))
 
     M["ndarray-getitem"] = nd_getitem
